@@ -90,6 +90,8 @@ class ExprMixin:
             return v
         if name in mm.global_decl:
             raise Unsupported('module-level name {!r} is rebound by a function (global statement)'.format(name))
+        if name in mm.attr_store_bases:
+            raise Unsupported('attributes of the module-level name {!r} are assigned at run time'.format(name))
         if name in facts.classes:
             if not mm.stable(name):
                 raise Unsupported('class {!r} is bound more than once at module level'.format(name))
@@ -239,6 +241,15 @@ class ExprMixin:
             return out
         if isinstance(node, ast.JoinedStr):
             return Opaque('f-string')
+        if isinstance(node, ast.GeneratorExp):
+            # a generator is consumed once: folded to a list only where it is handed straight to its consumer
+            parent = getattr(node, '_parent', None)
+            once = (isinstance(parent, ast.Call) and any(a is node for a in parent.args)) \
+                or (isinstance(parent, ast.Assign) and parent.value is node and all(isinstance(t, (ast.Tuple, ast.List)) for t in parent.targets)) \
+                or (isinstance(parent, (ast.For, ast.comprehension)) and parent.iter is node) \
+                or (isinstance(parent, ast.Starred) and isinstance(getattr(parent, '_parent', None), ast.Call))
+            if not once:
+                raise Unsupported('generator expression that is not the direct argument of a call: {}'.format(unparse(node)))
         if isinstance(node, (ast.ListComp, ast.GeneratorExp)):
             return self.comprehension(node, st)
         if isinstance(node, ast.DictComp):
